@@ -12,6 +12,7 @@ import (
 	"os/exec"
 	"path/filepath"
 	"runtime"
+	"strconv"
 	"strings"
 
 	"github.com/goplus/gogen"
@@ -64,6 +65,54 @@ func (p *Pt) Scale(k int)  { p.X *= k; p.Y *= k }
 func (p Pt) Len() int      { return p.X + p.Y }
 
 var pt = Pt{3, 4}
+
+// user-defined enumerators: Next-style with one value and with key + value, iterator-function style with one and two values
+type it1 struct{ i, n int }
+
+func (p *it1) Next() (int, bool) { p.i++; return p.i * 10, p.i <= p.n }
+
+type En1 struct{ n int }
+
+func (e *En1) XGo_Enum() *it1 { n++; return &it1{n: e.n} }
+
+type it2 struct{ i, n int }
+
+func (p *it2) Next() (int, string, bool) { p.i++; return p.i, fmt.Sprint("v", p.i), p.i <= p.n }
+
+type En2 struct{ n int }
+
+func (e En2) XGo_Enum() *it2 { n++; return &it2{n: e.n} }
+
+type EnF1 struct{ n int }
+
+func (e EnF1) XGo_Enum() func(yield func(int) bool) {
+	n++
+	return func(yield func(int) bool) {
+		for i := 1; i <= e.n; i++ {
+			if !yield(i * 7) {
+				return
+			}
+		}
+	}
+}
+
+type EnF2 struct{ n int }
+
+func (e EnF2) XGo_Enum() func(yield func(int, string) bool) {
+	n++
+	return func(yield func(int, string) bool) {
+		for i := 1; i <= e.n; i++ {
+			if !yield(i, fmt.Sprint("w", i)) {
+				return
+			}
+		}
+	}
+}
+
+var en1 = &En1{3}
+var en2 = En2{3}
+var enf1 = EnF1{3}
+var enf2 = EnF2{2}
 `
 
 type c11Env struct {
@@ -89,6 +138,15 @@ type c11Scn struct {
 	// mayReject: the construct is not promised to be accepted (e.g. a constant *expression*, not a literal, too large
 	// for int64 assigned to a big-number type); when accepted its meaning is checked, when rejected nothing is decided
 	mayReject bool
+}
+
+// scopeVar resolves a variable through the enclosing scopes (a nil result would be taken for the blank identifier).
+func scopeVar(cb *gogen.CodeBuilder, name string) types.Object {
+	_, o := cb.Scope().LookupParent(name, token.NoPos)
+	if o == nil {
+		panic("harness: no variable " + name)
+	}
+	return o
 }
 
 func lit(kind token.Token, v string) *ast.BasicLit { return &ast.BasicLit{Kind: kind, Value: v} }
@@ -386,6 +444,160 @@ func c11Scenarios() []c11Scn {
 		e.cb.EndInit(1)
 		e.print("inline/variadic", func() int { e.cb.VarVal("res").Val(e.v("n")); return 2 })
 	}, ref: "res := func(xs ...int) int { return len(xs) + xs[0] }(next(), next(), 5)\n\tfmt.Println(\"inline/variadic\", res, n)"})
+	// ---- user-defined enumerators drive range loops: Next-style (elem, ok) and (key, elem, ok), iterator functions with
+	// one and two values; define form with named and blank variables, assign form, and no variables at all
+	type enumForm struct {
+		name   string
+		define []string // names of the define form (nil: assign / none)
+		assign []string // variables of the assign form ("_" allowed)
+		use    []string // loop variables the body prints
+	}
+	enumCase := func(enum string, loopHead func(f enumForm) string, forms []enumForm) {
+		for _, f := range forms {
+			f := f
+			tag := "enum/" + enum + "/" + f.name
+			// reference: plain Go
+			var rb strings.Builder
+			rb.WriteString("acc, cnt := \"\", 0\n\t_, _ = acc, cnt\n\t")
+			for _, a := range f.assign {
+				if a == "kk" {
+					rb.WriteString("var kk int\n\t_ = kk\n\t")
+				}
+				if a == "vv" {
+					rb.WriteString("var vv string\n\t_ = vv\n\t")
+				}
+				if a == "ee" {
+					rb.WriteString("var ee int\n\t_ = ee\n\t")
+				}
+			}
+			rb.WriteString(loopHead(f))
+			rb.WriteString("\n\t\tcnt++\n")
+			if len(f.use) > 0 {
+				rb.WriteString("\t\tacc += fmt.Sprint(" + strings.Join(f.use, ", ") + ", \";\")\n")
+			}
+			rb.WriteString("\t}\n\tfmt.Println(" + strconv.Quote(tag) + ", acc, cnt, n)")
+			add(c11Scn{tag: tag, build: func(e *c11Env) {
+				cb := e.cb
+				cb.DefineVarStart(token.NoPos, "acc", "cnt").Val("").Val(0).EndInit(2)
+				cb.VarRef(nil).VarRef(nil).VarVal("acc").VarVal("cnt").Assign(2, 2)
+				for _, a := range f.assign {
+					switch a {
+					case "kk", "ee":
+						cb.NewVar(types.Typ[types.Int], a)
+						cb.VarRef(nil).VarVal(a).Assign(1, 1)
+					case "vv":
+						cb.NewVar(types.Typ[types.String], a)
+						cb.VarRef(nil).VarVal(a).Assign(1, 1)
+					}
+				}
+				if f.define != nil {
+					cb.ForRange(append([]string(nil), f.define...)...) // ForRange rewrites the slice it is given ("_", v -> v)
+				} else {
+					cb.ForRange()
+					for _, a := range f.assign {
+						if a == "_" {
+							cb.VarRef(nil)
+						} else {
+							cb.VarRef(scopeVar(cb, a))
+						}
+					}
+				}
+				cb.Val(e.v(enum)).RangeAssignThen(token.NoPos)
+				cb.VarRef(scopeVar(cb, "cnt")).IncDec(token.INC)
+				if len(f.use) > 0 {
+					cb.VarRef(scopeVar(cb, "acc")).Val(e.fmt.Ref("Sprint"))
+					for _, u := range f.use {
+						cb.VarVal(u)
+					}
+					cb.Val(";").Call(len(f.use) + 1).AssignOp(token.ADD_ASSIGN)
+				}
+				cb.End()
+				e.print(tag, func() int { cb.VarVal("acc").VarVal("cnt").Val(e.v("n")); return 3 })
+			}, ref: rb.String()})
+		}
+	}
+	lhs := func(f enumForm, arity int) (string, string) { // assignment list for Next() results and the token
+		names, tok := f.define, ":="
+		if f.define == nil {
+			names, tok = f.assign, "="
+		}
+		out := make([]string, arity)
+		for i := range out {
+			out[i] = "_"
+		}
+		switch {
+		case arity == 1 && len(names) == 1:
+			out[0] = names[0]
+		case arity == 1 && len(names) == 2:
+			out[0] = names[1]
+		case arity == 2:
+			copy(out, names)
+		}
+		allBlank := true
+		for _, o := range out {
+			if o != "_" {
+				allBlank = false
+			}
+		}
+		if allBlank {
+			tok = "="
+		}
+		return strings.Join(out, ", "), tok
+	}
+	enumCase("en1", func(f enumForm) string {
+		l, tok := lhs(f, 1)
+		if tok == ":=" {
+			return "for it := en1.XGo_Enum(); ; {\n\t\t" + l + ", ok := it.Next()\n\t\tif !ok {\n\t\t\tbreak\n\t\t}"
+		}
+		return "for it := en1.XGo_Enum(); ; {\n\t\tvar ok bool\n\t\t" + l + ", ok = it.Next()\n\t\tif !ok {\n\t\t\tbreak\n\t\t}"
+	}, []enumForm{
+		{name: "define _,val", define: []string{"_", "val"}, use: []string{"val"}}, {name: "define val", define: []string{"val"}, use: []string{"val"}},
+		{name: "define _", define: []string{"_"}}, {name: "define _,_", define: []string{"_", "_"}},
+		{name: "assign ee", assign: []string{"ee"}, use: []string{"ee"}}, {name: "assign _", assign: []string{"_"}}, {name: "no variables", assign: []string{}},
+	})
+	enumCase("en2", func(f enumForm) string {
+		l, tok := lhs(f, 2)
+		if tok == ":=" {
+			return "for it := en2.XGo_Enum(); ; {\n\t\t" + l + ", ok := it.Next()\n\t\tif !ok {\n\t\t\tbreak\n\t\t}"
+		}
+		return "for it := en2.XGo_Enum(); ; {\n\t\tvar ok bool\n\t\t" + l + ", ok = it.Next()\n\t\tif !ok {\n\t\t\tbreak\n\t\t}"
+	}, []enumForm{
+		{name: "define k,v", define: []string{"k", "v"}, use: []string{"k", "v"}}, {name: "define _,v", define: []string{"_", "v"}, use: []string{"v"}},
+		{name: "define k,_", define: []string{"k", "_"}, use: []string{"k"}}, {name: "define k", define: []string{"k"}, use: []string{"k"}},
+		{name: "define _,_", define: []string{"_", "_"}}, {name: "define _", define: []string{"_"}},
+		{name: "assign kk,vv", assign: []string{"kk", "vv"}, use: []string{"kk", "vv"}}, {name: "assign _,vv", assign: []string{"_", "vv"}, use: []string{"vv"}},
+		{name: "assign kk", assign: []string{"kk"}, use: []string{"kk"}}, {name: "assign _,_", assign: []string{"_", "_"}}, {name: "no variables", assign: []string{}},
+	})
+	rangeHead := func(enum string) func(f enumForm) string {
+		return func(f enumForm) string {
+			names, tok := f.define, ":="
+			if f.define == nil {
+				names, tok = f.assign, "="
+			}
+			if len(names) == 0 {
+				return "for range " + enum + ".XGo_Enum() {"
+			}
+			allBlank := true
+			for _, nm := range names {
+				if nm != "_" {
+					allBlank = false
+				}
+			}
+			if allBlank {
+				tok = "="
+			}
+			return "for " + strings.Join(names, ", ") + " " + tok + " range " + enum + ".XGo_Enum() {"
+		}
+	}
+	enumCase("enf1", rangeHead("enf1"), []enumForm{
+		{name: "define v", define: []string{"v"}, use: []string{"v"}}, {name: "define _", define: []string{"_"}},
+		{name: "assign ee", assign: []string{"ee"}, use: []string{"ee"}}, {name: "no variables", assign: []string{}},
+	})
+	enumCase("enf2", rangeHead("enf2"), []enumForm{
+		{name: "define k,v", define: []string{"k", "v"}, use: []string{"k", "v"}}, {name: "define _,v", define: []string{"_", "v"}, use: []string{"v"}},
+		{name: "define k", define: []string{"k"}, use: []string{"k"}}, {name: "define _,_", define: []string{"_", "_"}},
+		{name: "assign kk,vv", assign: []string{"kk", "vv"}, use: []string{"kk", "vv"}}, {name: "no variables", assign: []string{}},
+	})
 	// ---- zero-argument conversion T()
 	for _, t := range []string{"int", "string", "float64", "bool", "MyInt", "MyStr", "Pt"} {
 		t := t
@@ -723,4 +935,38 @@ func init() {
 		Run:        c11Run,
 		Exhaustive: func(string) bool { return true },
 	})
+}
+
+// C11Bisect is a debugging aid: finds a minimal pair/prefix of default-configuration scenarios whose batch does not build.
+func C11Bisect() {
+	u := sharedUniverse()
+	var ok []c11Scn
+	for _, s := range c11List() {
+		if s.xgo {
+			continue
+		}
+		o := c11Build(u, []c11Scn{s}, false, false)
+		if o.Status == "accepted" && len(o.OutErrs) == 0 {
+			ok = append(ok, s)
+		}
+	}
+	fmt.Println(len(ok), "scenarios accepted individually")
+	var acc []c11Scn
+	for _, s := range ok {
+		try := append(append([]c11Scn{}, acc...), s)
+		o := c11Build(u, try, false, true)
+		if o.Status != "accepted" || len(o.OutErrs) > 0 {
+			fmt.Println("adding", s.tag, "breaks the batch:", o.Status, o.Msg, firstN(o.OutErrs, 2))
+			// find the partner
+			for _, p := range acc {
+				o2 := c11Build(u, []c11Scn{p, s}, false, true)
+				if o2.Status != "accepted" || len(o2.OutErrs) > 0 {
+					fmt.Println("   already with", p.tag, ":", o2.Status, o2.Msg, firstN(o2.OutErrs, 1))
+					break
+				}
+			}
+			continue
+		}
+		acc = try
+	}
 }
